@@ -144,14 +144,14 @@ theorem encFwdOpen_head {fo : Ref.FwdOpen} {b : Bytes} (h : Ref.encFwdOpen fo = 
 
 /-- the entry `forward_open` files for a new connection -/
 def fwdEntry (fo : Ref.FwdOpen) (otId : Nat) : Srv.Fwd :=
-  { connId := otId, serial := fo.serial, otNcp := Srv.ncpNorm fo.otNcp, otRpi := fo.otRpi,
-    toNcp := Srv.ncpNorm fo.toNcp, toRpi := fo.toRpi, tct := fo.tct,
+  { connId := otId, serial := fo.serial, otNcp := Srv.ncpNorm fo.large fo.otNcp, otRpi := fo.otRpi,
+    toNcp := Srv.ncpNorm fo.large fo.toNcp, toRpi := fo.toRpi, tct := fo.tct,
     cpath := portSegs fo.ports ++ fo.target.map segOf }
 
 /-- the ids the target answers with: it picks the O->T id of a point-to-point connection and the T->O id
 of a multicast connection -/
-def foOtId (fo : Ref.FwdOpen) (rnd : Srv.Rnd) : Nat := if Srv.ncpType fo.otNcp = 2 then rnd.otId else fo.otId
-def foToId (fo : Ref.FwdOpen) (rnd : Srv.Rnd) : Nat := if Srv.ncpType fo.toNcp = 1 then rnd.toId else fo.toId
+def foOtId (fo : Ref.FwdOpen) (rnd : Srv.Rnd) : Nat := if Srv.ncpType fo.large fo.otNcp = 2 then rnd.otId else fo.otId
+def foToId (fo : Ref.FwdOpen) (rnd : Srv.Rnd) : Nat := if Srv.ncpType fo.large fo.toNcp = 1 then rnd.toId else fo.toId
 
 def foOkBytes (fo : Ref.FwdOpen) (rnd : Srv.Rnd) : Bytes :=
   [(if fo.large then 0x5B else 0x54) + 128, 0, 0, 0] ++ Bytes.le 4 (foOtId fo rnd) ++ Bytes.le 4 (foToId fo rnd)
@@ -160,22 +160,25 @@ def foOkBytes (fo : Ref.FwdOpen) (rnd : Srv.Rnd) : Bytes :=
 
 /-- a Forward Open with non-zero connection sizes and a fresh connection id is accepted -/
 def FoAccepted (st : Srv.St) (rnd : Srv.Rnd) (fo : Ref.FwdOpen) : Prop :=
-  Srv.ncpSize fo.otNcp ≠ 0 ∧ Srv.ncpSize fo.toNcp ≠ 0 ∧
+  Srv.ncpSize fo.large fo.otNcp ≠ 0 ∧ Srv.ncpSize fo.large fo.toNcp ≠ 0 ∧
     st.fwds.find? (fun f => f.connId == foOtId fo rnd) = none
 
-theorem forwardOpen_fresh (st : Srv.St) (rnd : Srv.Rnd) (q : Srv.FoReq) (h1 : Srv.ncpSize q.otNcp ≠ 0)
-    (h2 : Srv.ncpSize q.toNcp ≠ 0) (otId : Nat) (ho : otId = if Srv.ncpType q.otNcp = 2 then rnd.otId else q.otId)
+theorem forwardOpen_fresh (st : Srv.St) (rnd : Srv.Rnd) (q : Srv.FoReq) (h1 : Srv.ncpSize (q.svc == Generated.iopSvcFwdOpenLarge) q.otNcp ≠ 0)
+    (h2 : Srv.ncpSize (q.svc == Generated.iopSvcFwdOpenLarge) q.toNcp ≠ 0) (otId : Nat) (ho : otId = if Srv.ncpType (q.svc == Generated.iopSvcFwdOpenLarge) q.otNcp = 2 then rnd.otId else q.otId)
     (h3 : st.fwds.find? (fun f => f.connId == otId) = none) :
     Srv.forwardOpen st rnd q =
-      ({ st with fwds := st.fwds ++ [{ connId := otId, serial := q.serial, otNcp := Srv.ncpNorm q.otNcp, otRpi := q.otRpi,
-                                       toNcp := Srv.ncpNorm q.toNcp, toRpi := q.toRpi, tct := q.tct, cpath := q.cpath }] },
+      ({ st with fwds := st.fwds ++ [{ connId := otId, serial := q.serial, otNcp := Srv.ncpNorm (q.svc == Generated.iopSvcFwdOpenLarge) q.otNcp, otRpi := q.otRpi,
+                                       toNcp := Srv.ncpNorm (q.svc == Generated.iopSvcFwdOpenLarge) q.toNcp, toRpi := q.toRpi, tct := q.tct, cpath := q.cpath }] },
        [q.svc + 128, 0, 0, 0] ++ Bytes.le 4 otId
-         ++ Bytes.le 4 (if Srv.ncpType q.toNcp = 1 then rnd.toId else q.toId) ++ Bytes.le 2 q.serial
+         ++ Bytes.le 4 (if Srv.ncpType (q.svc == Generated.iopSvcFwdOpenLarge) q.toNcp = 1 then rnd.toId else q.toId) ++ Bytes.le 2 q.serial
          ++ Bytes.le 2 q.vendor ++ Bytes.le 4 q.oserial ++ Bytes.le 4 q.otRpi ++ Bytes.le 4 q.toRpi ++ [0, 0]) := by
-  have hsz : ¬ (Srv.ncpSize q.otNcp = 0 ∨ Srv.ncpSize q.toNcp = 0) := by omega
+  have hsz : ¬ (Srv.ncpSize (q.svc == Generated.iopSvcFwdOpenLarge) q.otNcp = 0 ∨ Srv.ncpSize (q.svc == Generated.iopSvcFwdOpenLarge) q.toNcp = 0) := by omega
   unfold Srv.forwardOpen
   rw [if_neg hsz]
   simp only [← ho, h3]
+
+theorem foReqOf_large (fo : Ref.FwdOpen) : ((foReqOf fo).svc == Generated.iopSvcFwdOpenLarge) = fo.large := by
+  cases h : fo.large <;> simp [foReqOf, h, Generated.iopSvcFwdOpenLarge]
 
 theorem cmRequest_fwdOpen (st : Srv.St) (rnd : Srv.Rnd) (fo : Ref.FwdOpen) (b : Bytes)
     (h : Ref.encFwdOpen fo = some b) (hacc : FoAccepted st rnd fo) :
@@ -191,7 +194,9 @@ theorem cmRequest_fwdOpen (st : Srv.St) (rnd : Srv.Rnd) (fo : Ref.FwdOpen) (b : 
   unfold Srv.cmRequest
   simp only [Option.bind_none, cmPath_parse, Option.map_some, Srv.targetOf, resolve_cm, Srv.cm, Generated.iopCmClass,
     true_or, ↓reduceIte, Srv.cmService, hsvc, hp]
-  rw [forwardOpen_fresh st rnd (foReqOf fo) h1 h2 (foOtId fo rnd) rfl h3]
+  rw [forwardOpen_fresh st rnd (foReqOf fo) (by rw [foReqOf_large]; exact h1) (by rw [foReqOf_large]; exact h2)
+    (foOtId fo rnd) (by rw [foReqOf_large]; rfl) h3]
+  simp only [foReqOf_large]
   rfl
 
 theorem encFwdOpen_ranges {fo : Ref.FwdOpen} {b : Bytes} (h : Ref.encFwdOpen fo = some b) :
